@@ -128,8 +128,8 @@ def c08(c):
         name = 'trace-criteria-' + idx.replace('/', '-') + ''.join('-' + k for k in kw.pop('suffix', ()))
         return _fam(name=name, series=S, times=T, maxrows=1, maxtotal=3, maxops=3, sims=quick if c.quick else thorough, simops=11,
                     queries=c08_queries(C08_EXCLUDE.get(idx, ())), index=idx, sim=dict(maxrows=3, maxtotal=8), **kw)
-    fams = [fam('tree/series', 8, 50), fam('flat/time', 6, 40), fam('none/series', 4, 30),
-            fam('tree/series', 3, 20, flags=ROWPATH, suffix=('rowpath',))]
+    fams = [fam('tree/series', 6, 50), fam('flat/time', 4, 40), fam('none/series', 3, 30),
+            fam('tree/series', 2, 20, flags=ROWPATH, suffix=('rowpath',))]
     if not c.quick:
         fams += [fam('flat/row', 0, 30), fam('flat/series', 0, 30), fam('tree/time', 0, 30), fam('tree/series', 0, 20, shards=2, suffix=('2shards',))]
     return fams
@@ -154,13 +154,13 @@ def c09(c):
     offset x limit; the window counts traces; traces sharing an order key may come in any order"""
     fams = [
         _fam(name='trace-order-window-single', series=S, times=T, maxrows=1, maxtotal=3, maxops=3,
-             sims=8 if c.quick else 50, simops=12, queries=c09_queries(), index='tree/row', sim=dict(maxrows=3, maxtotal=9)),
+             sims=6 if c.quick else 50, simops=12, queries=c09_queries(), index='tree/row', sim=dict(maxrows=3, maxtotal=9)),
         _fam(name='trace-order-window-series', series=S, times=T, maxrows=1, maxtotal=3, maxops=3,
-             sims=8 if c.quick else 50, simops=12, queries=c09_queries(), index='tree/series', sim=dict(maxrows=3, maxtotal=9)),
+             sims=6 if c.quick else 50, simops=12, queries=c09_queries(), index='tree/series', sim=dict(maxrows=3, maxtotal=9)),
         _fam(name='trace-order-window-flat-cross-service', series=S, times=T, maxrows=1, maxtotal=3, maxops=3,
-             sims=6 if c.quick else 40, simops=12, queries=c09_queries(), index='flat/time', sim=dict(maxrows=3, maxtotal=9)),
+             sims=5 if c.quick else 40, simops=12, queries=c09_queries(), index='flat/time', sim=dict(maxrows=3, maxtotal=9)),
         _fam(name='trace-order-window-rowpath', series=S, times=T, maxrows=1, maxtotal=3, maxops=3,
-             sims=4 if c.quick else 25, simops=12, queries=c09_queries(), index='tree/series', flags=ROWPATH, sim=dict(maxrows=3, maxtotal=9)),
+             sims=3 if c.quick else 25, simops=12, queries=c09_queries(), index='tree/series', flags=ROWPATH, sim=dict(maxrows=3, maxtotal=9)),
     ]
     if not c.quick:
         fams += [
